@@ -1239,6 +1239,9 @@ func (app *App) performSwitchover(clusterState map[string]*nodestate.NodeState, 
 		if !slices.Contains(activeNodes, switchover.To) {
 			return errors.New("switchover: failed: replica is not active, can't switch to it")
 		}
+		if clusterState[switchover.To] == nil || app.cluster.Get(switchover.To) == nil {
+			return fmt.Errorf("switchover: failed: %s is not a registered cluster host", switchover.To)
+		}
 	}
 	// do not perform switchover if we have connection problems with some hosts
 	if dubious := getDubiousHAHosts(clusterState); len(dubious) > 0 {
@@ -1271,6 +1274,11 @@ func (app *App) performSwitchover(clusterState map[string]*nodestate.NodeState, 
 	// set read only everywhere (all HA-nodes) and stop replication
 	app.logger.Info().Msg("switchover: phase 1: enter read only")
 	errs := util.RunParallel(func(host string) error {
+		// the published active list may name a host which was removed from the registry:
+		// it counts as not frozen (quorum is still computed over the whole list)
+		if clusterState[host] == nil || app.cluster.Get(host) == nil {
+			return fmt.Errorf("switchover: host %s is not a registered cluster host", host)
+		}
 		if !clusterState[host].PingOk {
 			return fmt.Errorf("switchover: failed to ping host %s", host)
 		}
@@ -1326,6 +1334,9 @@ func (app *App) performSwitchover(clusterState map[string]*nodestate.NodeState, 
 	}
 
 	errs2 := util.RunParallel(func(host string) error {
+		if clusterState[host] == nil || app.cluster.Get(host) == nil {
+			return fmt.Errorf("switchover: host %s is not a registered cluster host", host)
+		}
 		if !clusterState[host].PingOk {
 			errMessage := fmt.Sprintf("switchover: failed to ping host %s", host)
 			app.logger.Warn().Msg(errMessage)
@@ -1452,7 +1463,7 @@ func (app *App) performSwitchover(clusterState map[string]*nodestate.NodeState, 
 		return fmt.Errorf("got error on setting new master %s online %w", newMaster, err)
 	}
 	errs = util.RunParallel(func(host string) error {
-		if host == newMaster || !clusterState[host].PingOk {
+		if host == newMaster || clusterState[host] == nil || !clusterState[host].PingOk {
 			return nil
 		}
 		err := app.performChangeMaster(host, newMaster)
